@@ -3,8 +3,13 @@ PID = "C01"
 LEAN_MODULE = "Hw.Props.C01"
 NS = "Hw.Props.C01."
 THEOREMS = [NS + t for t in """C01_oracle_exact C01_gp_index_unique C01_pu_os_index_unique C01_numa_os_index_unique
-C01_single_machine_root C01_no_filtered_type C01_set_in_complete C01_pu_cpuset C01_numa_nodeset C01_allowed_sets""".split()]
-TRUSTED = ["harness/dump.h as a faithful reading of the topology through the public API; lean/Driver/Topo.lean as its parser",
+C01_single_machine_root C01_no_filtered_type C01_set_in_complete C01_pu_cpuset C01_numa_nodeset C01_allowed_sets
+C01_discovery_by_insertion""".split()]
+TRUSTED = ["C01_discovery_by_insertion is about the model of hwloc___insert_object_by_cpuset (lean/Hw/Topo/Insert.lean); that model is tied to the "
+           "code by the C02 history engine, which predicts the exact tree after every hwloc_topology_insert_group_object call (new object = "
+           "Group; the type-order table used for other new types is generated from the source by tools/gen_restrict.py but exercised only "
+           "through Groups)",
+           "harness/dump.h as a faithful reading of the topology through the public API; lean/Driver/Topo.lean as its parser",
            "PARTIAL: that hwloc's loaders (synthetic, XML, Linux, x86, core pipeline) establish WF is NOT proved; it is checked by the proved oracle on every loaded topology of the run"]
 ASSUMPTIONS = ["sources: generated synthetic strings, bundled XML files, bundled Linux and x86 snapshots; flag subsets of {INCLUDE_DISALLOWED, IMPORT_SUPPORT, DONT_CHANGE_BINDING, NO_DISTANCES, NO_MEMATTRS, NO_CPUKINDS}; the live machine is not loaded natively"]
 MODELLED = ("modelled: the well-formedness predicate (every clause of the property) and its consequences; "
